@@ -135,7 +135,8 @@ def main():
         TIER = sys.argv[sys.argv.index('--tier') + 1]
     if '--rerun' in sys.argv:
         prev = [json.loads(l) for l in open(sys.argv[sys.argv.index('--rerun') + 1])]
-        want = {(j['file'], j['line'], j['new']) for j in prev if j['status'] in ('SURVIVED', 'timeout')}
+        sts = sys.argv[sys.argv.index('--rerun-status') + 1].split(',') if '--rerun-status' in sys.argv else ['SURVIVED', 'timeout']
+        want = {(j['file'], j['line'], j['new']) for j in prev if j['status'] in sts}
         muts = [m for m in muts if (m[0], m[1] + 1, m[3].strip()) in want]
     if limit:
         # deterministic spread
